@@ -14,7 +14,7 @@ def run(rep, tier, seed):
     res = nttcheck.run_parallel('ntt', cfgs)
     nttcheck.record(rep, 'ntt', res, nttcheck.describe_ntt, 'dft-bounded-shape')
     rep.floor('configurations', len(res), 1000 if tier == 'quick' else 20000)
-    nttrules.run_rules(rep, ('null', 'dep-s', 'div', 'abort-census'))
+    nttrules.run_rules(rep, ('null', 'dep-s', 'shift', 'abort-census', 'w-chain'))
     rep.sample(dict(kind='ntt', example=nttcheck.describe_ntt(cfgs[len(cfgs) // 2]), configurations=len(cfgs)))
     rep.cov['shapes'] = 'capacity<=%d, size|capacity, ncols, nphase, nblock, buffer, dst mode, nThreads (see rule)' % (32 if tier == 'quick' else 128)
     rep.assumptions += ['bounded in shape (universal in data and representation); the DFT identity for sizes beyond the bound is not decided']
